@@ -101,7 +101,28 @@ class MergedVertex(object):
         self.vertices = list(vertices)
 
     def __repr__(self):
-        return "{}({})".format(self.__class__.__name__, repr(self.vertices))
+        # Chained same-chip constraints nest MergedVertex objects arbitrarily
+        # deeply: the nesting is printed without recursion so that an error
+        # message naming such a vertex can always be produced.
+        out = ["{}([".format(self.__class__.__name__)]
+        stack = [iter(self.vertices)]
+        first = [True]
+        while stack:
+            for vertex in stack[-1]:
+                if not first[-1]:
+                    out.append(", ")
+                first[-1] = False
+                if isinstance(vertex, MergedVertex):
+                    out.append("{}([".format(vertex.__class__.__name__))
+                    stack.append(iter(vertex.vertices))
+                    first.append(True)
+                    break
+                out.append(repr(vertex))
+            else:
+                stack.pop()
+                first.pop()
+                out.append("])")
+        return "".join(out)
 
 
 def apply_same_chip_constraints(vertices_resources, nets, constraints):
